@@ -9,9 +9,6 @@ C  the statement on the returned tree sequence: per-position tree isomorphism, c
    keeps the id, node-table columns / flags / metadata of the pieces, mutations, genotypes, idempotence.
 """
 
-import base64
-import pickle
-
 import numpy as np
 
 from .. import common, dating, split_corr as sc
@@ -32,13 +29,7 @@ ASSUMPTIONS = [
 ]
 
 
-def ts_b64(ts):
-    """Self-contained copy of all tables (incl. metadata and schemas) for replay files."""
-    return base64.b64encode(pickle.dumps(ts.dump_tables())).decode()
-
-
-def ts_from_b64(s):
-    return pickle.loads(base64.b64decode(s)).tree_sequence()
+ts_b64, ts_from_b64 = sc.ts_b64, sc.ts_from_b64
 
 
 def tables_equal(a, b):
